@@ -74,6 +74,56 @@ def oracle_part(ctx: vlib.Ctx, n: int, label="oracle"):
     return stats
 
 
+# fixed corner cases of the const/default sentinels (falsy values must survive) and of the round trip
+DIRECTED_SRC = (
+    "from dataclasses import dataclass, field\nfrom typing import *\n"
+    "@dataclass\nclass Fz:\n    a: int = 0\n    b: str = ''\n    c: bool = False\n    d: Optional[int] = None\n"
+    "    e: Literal[0] = 0\n    f: Literal[''] = ''\n    g: Literal[False] = False\n    h: Literal[None] = None\n"
+    "    i: Any = 0\n    j: float = 0.0\n    k: Tuple[()] = ()\n")
+DIRECTED_EXPECT = {
+    "a": {"type": "integer", "default": 0}, "b": {"type": "string", "default": ""}, "c": {"type": "boolean", "default": False},
+    "d": {"anyOf": [{"type": "integer"}, {"type": "null"}], "default": None},
+    "e": {"const": 0, "default": 0}, "f": {"const": "", "default": ""}, "g": {"const": False, "default": False},
+    "h": {"const": None, "default": None}, "i": {"default": 0}, "j": {"type": "number", "default": 0.0},
+    "k": {"type": "array", "default": [], "maxItems": 0}}
+DIRECTED_DOCS = [{"const": 0}, {"const": ""}, {"const": False}, {"const": None}, {"const": None, "default": 0},
+                 {"default": ""}, {"default": False}, {"default": None}, {"enum": [0, "", False, None], "default": []},
+                 {"type": "object", "properties": {"$ref": {"const": 0}}, "additionalProperties": False},
+                 {"$ref": "#/$defs/A", "$defs": {"A": {"default": {}}}}]
+
+
+def directed_part(ctx: vlib.Ctx):
+    from mashumaro.jsonschema import build_json_schema
+    from mashumaro.jsonschema.models import JSONSchema
+    case = {"source": DIRECTED_SRC, "roots": ["Fz"], "mode": "single", "feats": [{}],
+            "params": {"dialect": None, "all_refs": None, "ref_prefix": None, "with_definitions": True, "with_dialect_uri": False}}
+    mod = c20_oracle.load_module(DIRECTED_SRC)
+    try:
+        try:
+            props = build_json_schema(mod.Fz).to_dict().get("properties", {})
+        except Exception as e:
+            props = {"<exception>": f"{type(e).__name__}: {e}"}
+        for k, exp in DIRECTED_EXPECT.items():
+            ctx.count(("directed", k))
+            if not c20_oracle.deep_eq(props.get(k), exp) or (props.get(k) is not None and list(props[k]) != list(exp)):
+                res = {"ok": False, "clause": "sentinel", "what": f"falsy const/default lost or changed for field {k}", "step": 0, "exc": None,
+                       "detail": {"got": repr(props.get(k)), "expected": repr(exp)}}
+                ctx.fail(f"field {k} of the sentinel class: schema {props.get(k)!r}, expected {exp!r}",
+                         {**_replay_of(case, res), "entry": "c20.directed", "field": k, "expected_schema": exp}, {"clause": "sentinel", "kind": "other", "exc": None})
+        for doc in DIRECTED_DOCS:
+            ctx.count(("directed-doc", json.dumps(doc, sort_keys=True)))
+            try:
+                back = JSONSchema.from_dict(doc).to_dict()
+            except Exception as e:
+                back = f"{type(e).__name__}: {e}"
+            if not c20_oracle.deep_eq(back, doc):
+                ctx.fail(f"JSONSchema.from_dict(d).to_dict() != d for d={doc!r}: {back!r}",
+                         {"entry": "c20.directed-doc", "doc": doc, "observed": repr(back), "expected": repr(doc)},
+                         {"clause": "roundtrip", "kind": "other", "exc": None})
+    finally:
+        c20_oracle.unload(mod)
+
+
 def run(ctx: vlib.Ctx):
     ctx.coverage["rule"] = (
         "oracle: random families of 1-5 dataclasses (fields over the schema-supported grammar: scalars, stdlib leaves, enums, "
@@ -88,6 +138,7 @@ def run(ctx: vlib.Ctx):
     n = ctx.budget(1500, 12000)
     if ctx.unshown:
         n = ctx.budget(2500, 16000)
+    directed_part(ctx)
     oracle_part(ctx, n)
     ctx.trusted.append("jsonschema package (Draft202012Validator.check_schema incl. format checks) as the metaschema validator of the oracle")
     ctx.trusted.append("harness/props/c20_gen.py: the feature predicates (cyclic, Self, slots, field-level overrides, Final, NamedTuple "
@@ -105,6 +156,28 @@ def replay(rep: dict) -> int:
         print("roots", rep["roots"], "mode", rep["mode"], "params", rep["params"])
         print("observed now:", {k: v for k, v in res.items()})
         if res["ok"] is False:
+            print("REPRODUCED")
+            return 1
+        print("not reproduced")
+        return 0
+    if rep.get("entry") == "c20.directed":
+        from mashumaro.jsonschema import build_json_schema
+        mod = c20_oracle.load_module(rep["source"])
+        got = build_json_schema(mod.Fz).to_dict().get("properties", {}).get(rep["field"])
+        print("field", rep["field"], "schema now", got, "expected", rep["expected_schema"])
+        if not c20_oracle.deep_eq(got, rep["expected_schema"]):
+            print("REPRODUCED")
+            return 1
+        print("not reproduced")
+        return 0
+    if rep.get("entry") == "c20.directed-doc":
+        from mashumaro.jsonschema.models import JSONSchema
+        try:
+            back = JSONSchema.from_dict(rep["doc"]).to_dict()
+        except Exception as e:
+            back = f"{type(e).__name__}: {e}"
+        print("doc", rep["doc"], "->", back)
+        if not c20_oracle.deep_eq(back, rep["doc"]):
             print("REPRODUCED")
             return 1
         print("not reproduced")
